@@ -588,23 +588,25 @@ HUGE = ["emt 1 _ 40000", ".rad50 <1 _ 40000>", "hl{u}: br (1 _ 40000)", ".word 1
         "mov #<1 _ 20000> * <1 _ 20000>, r0", '.ascii <1 _ 40000>\n.even', "trap -<1 _ 30000>"]
 
 
-def huge_int_program(rng):
+def huge_int_program(rng, which=None):
     """Diagnostics that must print an integer of thousands of digits: sensitive to the interpreter's int/str limit, which an earlier
     assembly might have switched (every such statement is an error on its own; the point is HOW the run ends)."""
     text, _ = gen_program(rng, "g")
     lines = text.rstrip("\n").split("\n")
-    for j, h in enumerate(rng.sample(HUGE, rng.randint(1, 2))):
+    picks = [HUGE[which % len(HUGE)]] if which is not None else rng.sample(HUGE, rng.randint(1, 2))
+    for j, h in enumerate(picks):
         lines.insert(rng.choice([0, len(lines)]), h.replace("{u}", str(j)))
     return "\n".join(lines) + "\n"
 
 
-PROBE_KINDS = ["huge-int", "product-chain", "equal-values", "valid", "faulty", "two-files", "include+forward", "shared-names", "equal-values"]
+PROBE_KINDS = ["huge-int", "huge-int", "huge-int", "product-chain", "equal-values", "valid", "faulty", "two-files", "include+forward", "shared-names", "equal-values"]
 
 
 def gen_probe(rng, i):
     kind = PROBE_KINDS[i] if i < len(PROBE_KINDS) else rng.choice(PROBE_KINDS + ["valid", "faulty", "product-chain", "huge-int"])
     if kind == "huge-int":
-        return {"files": [["probe.mac", huge_int_program(rng)]], "what": "huge-int"}
+        # the first probes walk through the places that print a huge value (emt, .rad50, branch offset, ...), one each
+        return {"files": [["probe.mac", huge_int_program(rng, which=(i if i < 3 else rng.randrange(len(HUGE))))]], "what": "huge-int"}
     if kind == "product-chain":
         v, text = product_chain_variant(rng)
         return {"files": [["probe.mac", text]], "what": "product-chain:" + v}
@@ -879,7 +881,7 @@ def explore(rep, br, tier, seed):
     seeds = [str(s) for s in range(16)] + ["random"]
     cli_hash_part(rep, rng, 8 if tier == "quick" else 40, seeds)
     if tier == "quick":
-        history_part(rep, rng, nprobes=10, nhist_per_probe=6, maxlen=50, seeds=seeds)
+        history_part(rep, rng, nprobes=12, nhist_per_probe=5, maxlen=50, seeds=seeds)
     else:
         history_part(rep, rng, nprobes=40, nhist_per_probe=25, maxlen=50, seeds=seeds)
 
